@@ -163,6 +163,12 @@ def choose_int_dtype(
     int_min = np.round(x_minmax[0])
     int_max = np.round(x_minmax[1])
 
+    # compare in double precision: comparing a float32 scalar with
+    # the integer limits casts the limit to float32, so that
+    # e.g. float32(2**32) would "fit" into uint32
+    int_min = np.float64(int_min)
+    int_max = np.float64(int_max)
+
     for candidate in (np.uint8, np.int8, np.uint16, np.int16,
                       np.uint32, np.int32, np.uint64, np.int64):
         this_info = np.iinfo(candidate)
